@@ -422,6 +422,64 @@ async fn stress(run: &mut Run, rng: &mut Rng, own: &RawNode, remotes: &[RawNode]
     Ok(())
 }
 
+
+/// C04 "the listing contains no peer whose connection it has seen closed", with user code that does
+/// not yield: while a handler of the peer blocks a worker thread, the peer's connection ends; the loss
+/// must be listed and announced at once, not when the handler gets round to finishing.
+/// (real time, multi-thread runtime)
+fn blocked_handler_exit(run: &mut Run, cases: usize) -> anyhow::Result<()> {
+    for case in 0..cases {
+        run.mark(&format!("scenario blocked_handler_exit case {case}"));
+        let seed = run.seed ^ 0xB10C ^ (case as u64);
+        let rt = tokio::runtime::Builder::new_multi_thread().worker_threads(4).enable_all().build()?;
+        let res: anyhow::Result<(Option<u128>, bool)> = rt.block_on(async move {
+            let fabric = Fabric::new(seed);
+            let a = start_node(&fabric, seed, 1, config_idle(30_000))?;
+            let b = start_node(&fabric, seed, 2, config_idle(30_000))?;
+            let (mut rx, _) = b.net.subscribe()?;
+            a.net.connect_with_peer_id(b.addr, b.id).await?;
+            tokio::time::sleep(Duration::from_millis(100)).await;
+            let (an, bid) = (a.net.clone(), b.id);
+            tokio::spawn(async move {
+                let mut req = anemo::Request::new(bytes::Bytes::from_static(b"x")).with_route("/b");
+                req.headers_mut().insert("x-id".into(), "blocker".into());
+                req.headers_mut().insert("x-block-ms".into(), "1500".into());
+                let _ = an.rpc(bid, req).await;
+            });
+            tokio::time::sleep(Duration::from_millis(150)).await; // the handler is now blocking a worker of B
+            let t0 = std::time::Instant::now();
+            if case % 2 == 0 {
+                let _ = a.net.disconnect(b.id);
+            } else {
+                let _ = a.net.shutdown().await;
+            }
+            let mut lost_after = None;
+            let deadline = tokio::time::Instant::now() + Duration::from_millis(1200);
+            loop {
+                match tokio::time::timeout_at(deadline, rx.recv()).await {
+                    Ok(Ok(PeerEvent::LostPeer(p, _))) if p == a.id => {
+                        lost_after = Some(t0.elapsed().as_millis());
+                        break;
+                    }
+                    Ok(Ok(_)) => continue,
+                    _ => break,
+                }
+            }
+            let still = b.net.peers().contains(&a.id);
+            Ok((lost_after, still))
+        });
+        let (lost_after, still) = res?;
+        rt.shutdown_timeout(Duration::from_secs(3));
+        let ok = matches!(lost_after, Some(ms) if ms <= 700) && !still;
+        if !ok {
+            run.oracle_fail(json!({"kind": "a peer whose connection ended stayed listed / unannounced while one of its handlers was still running", "case": case, "lost_peer_after_ms": lost_after.map(|x| x as u64), "still_listed_after_1200ms": still}));
+        }
+        run.count("blocked-handler-exit", if ok { "prompt" } else { "late" });
+        run.eval(&format!("blocked{case}"), true);
+    }
+    Ok(())
+}
+
 pub fn run_c04(run: &mut Run, replay: Option<&std::path::Path>) -> anyhow::Result<()> {
     let seed = run.seed;
     let (nseq, len, nstress) = if run.quick() { (260, 22, 150) } else { (6000, 40, 1500) };
@@ -444,6 +502,7 @@ pub fn run_c04(run: &mut Run, replay: Option<&std::path::Path>) -> anyhow::Resul
     })?;
     // whole networks: every node's event log must be accepted by the model against its listing
     network_logs(run, if run.quick() { 25 } else { 400 })?;
+    blocked_handler_exit(run, if run.quick() { 2 } else { 8 })?;
     Ok(())
 }
 
@@ -559,6 +618,7 @@ impl NodeLog {
 fn network_logs(run: &mut Run, n: usize) -> anyhow::Result<()> {
     let seed = run.seed;
     for case in 0..n {
+        run.mark(&format!("scenario network_logs case {case} seed {}", run.seed));
         let rt = paused_rt();
         let lines: Vec<(String, String)> = rt.block_on(async {
             let mut rng = Rng::new(seed ^ (0xC04 + case as u64));
@@ -772,6 +832,7 @@ async fn duo_schedule(run: &mut Run, rng: &mut Rng, na: &RawNode, nb: &RawNode, 
 }
 
 fn mutual_dial_case(run: &mut Run, seed: u64, case: u64) -> anyhow::Result<()> {
+    run.mark(&format!("scenario mutual_dial case {case} seed {seed}"));
     let rt = paused_rt();
     let res: anyhow::Result<(Vec<(String, String)>, Option<serde_json::Value>, String)> = rt.block_on(async {
         let mut rng = Rng::new(seed ^ (0xC05 << 20) ^ case);
